@@ -212,6 +212,9 @@ class Built:
     pass
 
 
+_FORM = {'n': 0}
+
+
 def build(cfg, rng, pool, target=True, name_form='list', live=None):
     """Call the real make_interest / make_data for the abstract cfg. Returns Built with
     .wire (bytes) or .exc, .rec (Recorder or None) and the concrete inputs.
@@ -228,7 +231,26 @@ def build(cfg, rng, pool, target=True, name_form='list', live=None):
     b.exc = None
     b.wire = None
     b.final_name = None
-    name_arg = b.comps if name_form == 'list' else enc.Name.to_bytes(b.comps)
+    # the name in the forms a NonStrictName may take; 'auto' (every caller that does not ask for a form) rotates
+    # through them, so that each abstract configuration is sooner or later built from every form
+    if name_form == 'list':
+        _FORM['n'] += 1
+        name_form = ('list', 'list', 'tuple', 'iter', 'uri', 'wire', 'wirebuf', 'views')[_FORM['n'] % 8]
+    b.name_form = name_form
+    if name_form == 'tuple':
+        name_arg = tuple(b.comps)
+    elif name_form == 'iter':
+        name_arg = (c for c in b.comps)                    # a one-shot iterator is an Iterable too
+    elif name_form == 'uri':
+        name_arg = enc.Name.to_str(b.comps)
+    elif name_form == 'wire':
+        name_arg = enc.Name.to_bytes(b.comps)
+    elif name_form == 'wirebuf':
+        name_arg = bytearray(enc.Name.to_bytes(b.comps))
+    elif name_form == 'views':
+        name_arg = [memoryview(bytearray(c)) for c in b.comps]
+    else:
+        name_arg = b.comps
     import ndn.security.signer.sha256_digest_signer as dsm
     saved = dsm.gen_nonce_64
     if cfg['sg']['kind'] == 'digestI':
